@@ -7,6 +7,7 @@
 (***************************************************************************)
 EXTENDS CLI
 CONSTANTS MaxInputs,    \* longest input list
+          MaxInputsEach,\* longest input list in the per-input mode "each" (>= MaxInputs)
           Kinds,        \* input kinds used, subset of AllKinds
           ProgSet,      \* program tags used
           Modes         \* subset of {"each", "slurp", "raw", "rawslurp"}
@@ -14,10 +15,11 @@ VARIABLES cfg, s
 vars == <<cfg, s>>
 
 D0 == [compact |-> FALSE, raw |-> FALSE, join |-> "\n"]
-KindLists == UNION {[1 .. n -> Kinds] : n \in 0 .. MaxInputs}
-Cfgs == {[st |-> "ok", prog |-> p, inputs |-> [i \in 1 .. Len(ks) |-> In(KindFile(ks[i]), ks[i])],
-          mode |-> m, nullin |-> n, disp |-> D0, xbound |-> FALSE, xval |-> JNull]
-            : p \in ProgSet, ks \in KindLists, m \in Modes, n \in BOOLEAN}
+KindLists(max) == UNION {[1 .. n -> Kinds] : n \in 0 .. max}
+Cfg(p, ks, m, n) == [st |-> "ok", prog |-> p, inputs |-> [i \in 1 .. Len(ks) |-> In(KindFile(ks[i]), ks[i])],
+                     mode |-> m, nullin |-> n, disp |-> D0, xbound |-> FALSE, xval |-> JNull]
+Cfgs == {Cfg(p, ks, m, n) : p \in ProgSet, ks \in KindLists(MaxInputs), m \in Modes, n \in BOOLEAN}
+        \cup {Cfg(p, ks, "each", n) : p \in ProgSet, ks \in KindLists(MaxInputsEach) \ KindLists(MaxInputs), n \in BOOLEAN}
 
 Init == cfg \in Cfgs /\ s = LoopInit(cfg)
 
@@ -56,6 +58,8 @@ ExitOK == s.pc = "done" => s.exit = Req(cfg).exit
 OutOK == s.pc = "done" => s.out = Req(cfg).out
 \* independence: out = concatenation of the solo outputs of the good inputs in argument order
 Independence == (s.pc = "done" /\ IndepApplies(cfg)) => s.out = IndepOut(cfg)
+\* as built, with the known hole (only reachable when "E" is among Kinds)
+OutOKOrKnownEmptyRaw == s.pc = "done" => (s.out = Req(cfg).out \/ EmptyRawText(cfg))
 \* a failing input never changes the error memory of another class, nothing is forgotten
 MemoryMonotone == [][/\ Len(s'.ioErrs) >= Len(s.ioErrs) /\ Len(s'.decodeErrs) >= Len(s.decodeErrs)
                      /\ (s.lastExprErr => s'.lastExprErr)]_vars
